@@ -217,7 +217,7 @@ def directed():
 
 
 def gen(rng, tier):
-    n_rand = {"quick": 500, "thorough": 40000, "search": 12000}[tier]
+    n_rand = {"quick": 500, "thorough": 20000, "search": 6000}[tier]
     for tag, ops in directed():
         yield Case("s_pickerwrapper", ops, tag)
     for i in range(n_rand):
